@@ -73,6 +73,18 @@ def build_universe(ctx: Ctx, rng: random.Random) -> Tuple[List[dict], List[Any]]
                                 continue
                             created = createds[(len(specs)) % 2]
                             add(kind, name, type_, cls, ttl, created, rd)
+    # the same records as the decoder builds them: read from a datagram that arrived on an IPv4 socket (no scope) and on an
+    # IPv6 socket (scope id 3 of the receiving interface).  An AAAA record takes the scope of its socket, an A record has none.
+    for name in names[1][:2]:
+        for kind, variants in rdvariants.items():
+            if kind == 'HINFO':
+                continue
+            for type_, rd in variants[:3]:
+                if (kind == 'TXT' and type_ != 16) or (kind == 'A' and rd[1] is not None) or (kind == 'A' and type_ == 28 and len(rd[0]) != 16):
+                    continue
+                for scope in (None, 3):
+                    rd2 = (rd[0], scope) if (kind == 'A' and type_ == 28) else rd
+                    specs.append((kind, name, type_, 1, 120, createds[0], rd2, ('wire', scope)))
     # a few random extras (thorough): random field mixes
     if ctx.thorough:
         kinds = list(rdvariants)
@@ -86,7 +98,18 @@ def build_universe(ctx: Ctx, rng: random.Random) -> Tuple[List[dict], List[Any]]
 
 def make_object(spec: tuple) -> Any:
     from zeroconf import DNSAddress, DNSHinfo, DNSNsec, DNSPointer, DNSQuestion, DNSService, DNSText
-    kind, name, type_, cls, ttl, created, rd = spec
+    kind, name, type_, cls, ttl, created, rd = spec[:7]
+    if len(spec) > 7:
+        # through the decoder: one response datagram with this record, as received on a socket with the given scope
+        from vf import wire
+        from zeroconf._protocol.incoming import DNSIncoming
+        wrd = {'A': lambda: rd[0], 'PTR': lambda: rd[0], 'TXT': lambda: rd[0], 'SRV': lambda: rd, 'NSEC': lambda: (rd[0], list(rd[1]))}[kind]()
+        data = wire.build(flags=0x8400, answers=[(name, type_, cls, ttl, wrd)])
+        scope = spec[7][1]
+        msg = DNSIncoming(data, ('fe80::9', 5353) if scope is not None else ('10.0.0.9', 5353), scope, created)
+        recs = msg.answers()
+        assert len(recs) == 1, (spec, recs)
+        return recs[0]
     if kind == 'Q':
         return DNSQuestion(name, type_, cls)
     if kind == 'A':
@@ -105,7 +128,7 @@ def make_object(spec: tuple) -> Any:
 
 
 def abstract(spec: tuple, base: Interner, exact: Interner, raw: Interner) -> dict:
-    kind, name, type_, cls, ttl, created, rd = spec
+    kind, name, type_, cls, ttl, created, rd = spec[:7]
     # interning cross-check: the base id is computed with our own ASCII folding and must
     # agree with str.lower() on ASCII names
     low = ascii_lower(name)
